@@ -122,7 +122,23 @@ func GenDispatchProgram(t *rapid.T, prof DispatchProfile) *Program {
 		spec.Egress = e
 		sys.DNS = map[string][][]string{}
 		for _, h := range []string{"t0.example", "t1.example", "t9.example", "internal.corp", "evil.example", "allowed.example", "sub.allowed.example"} {
-			switch rapid.IntRange(0, 9).Draw(t, "dns."+h) {
+			switch rapid.IntRange(0, 11).Draw(t, "dns."+h) {
+			case 10, 11:
+				// an address at the edge of an address class, alone or next to a public one, in the
+				// first answer or in a later one (the answer a redirect hop or a redelivery gets)
+				a := rapid.SampledFrom(egressEdgeAddrs).Draw(t, "dns.edge."+h)
+				ans := []string{a}
+				switch rapid.IntRange(0, 3).Draw(t, "dns.edgeshape."+h) {
+				case 0:
+					ans = []string{"93.184.216.34", a}
+				case 1:
+					ans = []string{a, "2001:db8::5"}
+				}
+				if rapid.IntRange(0, 3).Draw(t, "dns.edgelater."+h) == 0 {
+					sys.DNS[h] = [][]string{{"93.184.216.34"}, ans}
+				} else {
+					sys.DNS[h] = [][]string{ans}
+				}
 			case 6:
 				sys.DNS[h] = [][]string{{"93.184.216.34"}, {"169.254.169.254"}}
 			case 7:
@@ -288,6 +304,22 @@ func GenDispatchProgram(t *rapid.T, prof DispatchProfile) *Program {
 		}
 	}
 	return p
+}
+
+// egressEdgeAddrs: first, last and just-outside addresses of the classes dns_rebind_protection names
+// (loopback, private, link-local, multicast, unspecified; IPv4, IPv6, IPv4-mapped).
+var egressEdgeAddrs = []string{
+	"127.0.0.1", "127.255.255.254", "128.0.0.1", "126.255.255.255",
+	"10.0.0.0", "10.255.255.255", "11.0.0.0", "9.255.255.255",
+	"172.16.0.0", "172.31.255.255", "172.32.0.0", "172.15.255.255",
+	"192.168.0.0", "192.168.255.255", "192.169.0.0", "192.167.255.255",
+	"169.254.0.0", "169.254.255.255", "169.255.0.0", "169.253.255.255",
+	"224.0.0.1", "239.255.255.255", "223.255.255.255", "0.0.0.0",
+	"::", "::1", "::2",
+	"fe80::", "fe80::1", "fe80:0:0:1::1", "fe80:1::1", "fe90::1", "febf:ffff:ffff:ffff:ffff:ffff:ffff:ffff", "fec0::1", "fe7f:ffff::1",
+	"fc00::", "fc00::1", "fdff:ffff::1", "fe00::1", "fbff:ffff::1",
+	"ff00::", "ff02::1", "ff0e::1", "ffff::1", "feff::1",
+	"::ffff:127.0.0.1", "::ffff:169.254.1.1", "::ffff:192.168.0.1", "::ffff:224.0.0.1", "::ffff:0.0.0.0", "::ffff:93.184.216.34",
 }
 
 func init() {
